@@ -89,7 +89,8 @@ def frame(content: bytes, case) -> tuple[bytes, bytes]:
     framing = case.get("framing", "cl")
     if framing == "chunked":
         ext = b";ext=1" if case.get("ext") else b""
-        body = fakenet.chunked(content, case.get("chunk_sizes") or (), ext)
+        # chunk-size = 1*HEXDIG: lower case, upper case, or with leading zeros
+        body = fakenet.chunked(content, case.get("chunk_sizes") or (), ext, fmt={"x": b"%x", "X": b"%X", "04x": b"%04x"}[case.get("hexfmt", "x")])
         hdrs.append((b"Transfer-Encoding", b"chunked"))
     elif framing == "cl":
         body = content
